@@ -20,6 +20,6 @@ for sid in ids:
     meta.setdefault("our_checks", {}); meta["our_checks"] = {**{k: v for k, v in (meta["our_checks"] or {}).items() if k.split("/")[0] not in cs}, **res}
     meta["detected_by"] = sorted({k.split("/")[0] for k, v in meta["our_checks"].items() if isinstance(v, dict) and v.get("violation")})
     json.dump(meta, open(os.path.join(d, "meta.json"), "w"), indent=1)
-    print(sid, {k: ("V" if v["violation"] else "-") + ("(nf)" if v.get("no_failing_input") else "") for k, v in res.items() if isinstance(v, dict)}, flush=True)
+    print(sid, {k: ("V" if v["violation"] else ("INFRA" if v["exit"] not in (0, 1) else "-")) + ("(nf)" if v.get("no_failing_input") else "") for k, v in res.items() if isinstance(v, dict)}, flush=True)
     for k, v in res.items():
         if isinstance(v, dict) and v.get("what"): print("    ", k, v["what"][:180]); break
